@@ -157,6 +157,11 @@ class Projector:
             if type(d.get(op[1])) is int:
                 d[op[1]] = d[op[1]] + op[2]
             return d
+        if k == 'map_to_scalar_opt':
+            x = d.get(op[1], 0)
+            if x is None or type(x) is str:
+                return x
+            return d
         if k == 'map_to_scalar':
             x = d.get(op[1])
             if type(x) is str:
